@@ -167,7 +167,12 @@ class H11Protocol:
             except h11.RemoteProtocolError as error:
                 if self.connection.our_state in {h11.IDLE, h11.SEND_RESPONSE}:
                     await self._send_error_response(error.error_status_hint)
-                await self.send(Closed())
+                    await self.send(Closed())
+                elif self.stream is None:
+                    await self.send(Closed())
+                # Otherwise a response is being sent, closing now would
+                # truncate it (or lose it entirely). The connection is
+                # closed once it completes, as it cannot be recycled.
                 break
             else:
                 if isinstance(event, h11.Request):
